@@ -38,13 +38,16 @@ DOCS = [
     "mutation { set(v: \"x\") { name id a } inc other { strict b } }",
 ]
 # sibling fields awaited in place or gathered, per field: default (all gathered) and the two alternating assignments
-CONFIGS = ["default", "mixed-even", "mixed-odd"]
+CONFIGS = ["default", "mixed-even", "mixed-odd", "engine-sequential"]
 
 
 def engine_for(cfg):
     schema = seeds.K
     if cfg == "default":
         return explore.engine_for("K", schema)
+    if cfg == "engine-sequential":
+        # the engine-wide options; @Resolver's own default (parent_concurrently=True) still applies to every field with a resolver
+        return explore.engine_for(("C09", cfg), schema, coerce_parent_concurrently=False, coerce_list_concurrently=False)
     par = 0 if cfg == "mixed-even" else 1
     per, n = {}, 0
     for td in schema.types:
@@ -202,8 +205,8 @@ def finish(agg, tier):
         "distinct_nontrivial": c.get("nontrivial", 0),
         "rule": "states = complete schedules of the real engine for %d mutation documents x every failure placement (none; raise / null "
                 "at each root field; raise / null at each nested field) : all completion orders of the suspended resolvers plus <= %d "
-                "mid-run injection(s), under 3 concurrency configurations (all siblings gathered; the two alternating per-field assignments "
-                "of parent_concurrently / list_concurrently). non-trivial = schedules deviating from FIFO. Oracle: event log ordered by root key, never two "
+                "mid-run injection(s), under 4 concurrency configurations (all siblings gathered; the two alternating per-field assignments "
+                "of parent_concurrently / list_concurrently; the engine-wide coerce_parent_concurrently=False / coerce_list_concurrently=False). non-trivial = schedules deviating from FIFO. Oracle: event log ordered by root key, never two "
                 "roots pending together, response keys in document order, data and errors equal to the reference"
                 % (len(DOCS), MAX_I[tier]),
         "exhaustive": True,
